@@ -205,6 +205,33 @@ def run(per_type, seed, with_lean=True):
                         break
                 if len(stats["samples"]) < 3 and len(b) > 20:
                     stats["samples"].append({"type": k, "hex": hx[:200]})
+        # search for a failing input that does not depend on the translator: bytes that are canonical
+        # under the *pinned* definition (baselines/) of a diverging or changed type, which prost does
+        # not return unchanged
+        try:
+            base = json.load(open(os.path.join(ROOT, "baselines", "initia_proto_schema.json")))
+        except OSError:
+            base = None
+        if base is not None:
+            def sig(m):
+                return [(f["tag"], f["kind"], f["label"], f.get("packed"), f.get("ref"), f.get("oneof")) for f in m["fields"]]
+            suspects = {x["type"] for x in divs if x["kind"] == "prost-vs-extracted-schema"}
+            suspects |= {k for k in compiled if k in base["messages"] and sig(base["messages"][k]) != sig(schema["messages"][k])}
+            gb = Gen(base, random.Random(seed + 17))
+            for k in sorted(suspects):
+                if k not in base["messages"]:
+                    continue
+                for i in range(400):
+                    b = gb.message(k, 0)
+                    r = h.call({"op": "proto", "fn": "roundtrip", "type": k, "hex": b.hex()})
+                    stats["evaluations"] += 1
+                    if "bad" in r:
+                        break
+                    if r.get("ok") != b.hex():
+                        divs.append({"kind": "prost-vs-pinned-definition", "witness": True, "type": k, "hex": b.hex(), "prost": r,
+                                     "what": "bytes canonical under the pinned protobuf definition of %s are not returned by decode-then-encode" % k,
+                                     "fields": base["messages"][k]["fields"]})
+                        break
         # Any: pack / unpack, and rejection of a foreign URL
         for t in schema["type_urls"]:
             k = t["rust_path"]
@@ -217,12 +244,12 @@ def run(per_type, seed, with_lean=True):
             if u != t["url"]:
                 divs.append({"kind": "type_urls.rs-vs-compiled", "type": k, "compiled": u, "parsed": t["url"]})
             if want != u:
-                divs.append({"kind": "type_url_not_canonical", "type": k, "url": u, "canonical": want})
+                divs.append({"kind": "type_url_not_canonical", "witness": True, "type": k, "url": u, "canonical": want})
             if "ok" not in r or r["ok"]["unpacked"] != b.hex() or r["ok"]["type_url"] != u:
-                divs.append({"kind": "any_roundtrip", "type": k, "detail": r})
+                divs.append({"kind": "any_roundtrip", "witness": True, "hex": b.hex(), "type": k, "detail": r})
             r2 = h.call({"op": "proto", "fn": "any", "type": k, "hex": b.hex(), "url": (u or "") + "X"})
             if "err" not in r2 or r2["err"]["kind"] != "TypeUrl":
-                divs.append({"kind": "any_accepts_foreign_url", "type": k, "detail": r2})
+                divs.append({"kind": "any_accepts_foreign_url", "witness": True, "hex": b.hex(), "type": k, "detail": r2})
     finally:
         h.close()
         if d is not None:
